@@ -306,6 +306,8 @@ def run(ctx):
     r6(ctx)
     ctx.rule("R7", "every composite key of a rule file becomes the operator of that name (a `not:` is always an ops::Not node, whose sub-rule matches on a throw-away environment)")
     r7(ctx)
+    ctx.rule("R8", "operators evaluate the sub-rules they own with the caller's bindings in view (never through the env-less Node::matches/find API), the stop rule excepted")
+    r8(ctx)
 
 
 def r2(ctx):
@@ -682,6 +684,50 @@ def r7(ctx):
                "%d push(es), each of a Rule::%s built in this arm" % (len(mine), variant) if mine and not bad else
                "the `%s` key does not always produce a Rule::%s node (%s): e.g. `not: {not: R}` rewritten to plain R lets R's bindings escape the negation — variables bound only under a "
                "`not` appear in the match and constrain later occurrences" % (key, variant, bad or "no push found"), where=f0.loc())
+
+
+ENVLESS_API = {"matches", "find", "find_all", "match_node", "has", "inside", "follows", "precedes", "find_node"}
+
+
+def r8(ctx):
+    """same-name occurrences must be identical ACROSS sub-rules: a sub-rule has to be evaluated against (a scratch copy of) the bindings
+    made so far.  An operator that evaluates a sub-rule it owns through the env-less API (Node::matches / find / MatcherExt::match_node
+    start from an empty environment) lets the sub-rule bind the shared names afresh — `not: {inside: {pattern: if ($OBJ) …}}` then
+    rejects nodes because of some other `$OBJ`.  The stop rule of relational operators is the documented exception (fresh environment by
+    design, R2)."""
+    from .c01 import matcher_impls
+    prog = ctx.prog
+    n = 0
+    for impl in matcher_impls(prog):
+        st = impl["self"]
+        if not (st.startswith("ast_grep_core::ops::") or st.startswith("ast_grep_config::rule")):
+            continue
+        m = prog.impl_method(impl, "match_node_with_env")
+        if m is None:
+            continue
+        n += 1
+        mi = prog.inlined(m)
+        bad = []
+        for g in prog.family(mi):
+            for c in g.calls:
+                if c.bb not in g.live_blocks or c.name not in ENVLESS_API or len(c.args) < 2:
+                    continue
+                tr = c.callee.get("trait") or ""
+                if not ("ast_grep_core::node::Node" in c.best or tr.endswith("::MatcherExt") or tr.endswith("::Matcher")):
+                    continue
+                for a in c.args:
+                    if a[0] == "k":
+                        continue
+                    for ff, o in ultimate_roots(prog, g, a, TRANSPARENT | {"deref", "inner"}):
+                        if ff.id == mi.id and o.kind == "param" and o.ref == 1:
+                            fields = field_path(o.proj)
+                            if fields and not any("stop" in x.lower() for x in fields) and "StopBy" not in " ".join(map(str, o.proj)):
+                                bad.append("%s(self.%s)" % (c.name, fields[0]))
+        ctx.ob("R8", "%s evaluates its sub-rules with the bindings made so far" % st, not bad,
+               "no env-less evaluation of an own sub-rule" if not bad else
+               "%s evaluates an own sub-rule through the env-less API (%s): inside it a meta-variable bound by the enclosing rule is free again, so a repeated name no longer has to "
+               "denote the same code" % (st.split("::")[-1].split("<")[0], sorted(set(bad))), where=m.loc())
+    ctx.floor("R8", "combinator/rule Matcher impls", n, 10)
 
 
 AGG_TY = re.compile(r"^&mut impl Aggregator<")
